@@ -69,7 +69,7 @@ FORMULAS = {
     'C06': (['SoftOnce', 'TimeoutCallbackArgs'],
             ['SoftOnlyIfDue', 'SoftSignalMatchesCallback', 'SoftToRunner', 'SoftDelivered', 'SnapFresh']),
     'C09': (['NeverAbove', 'DistinctIdx', 'QuotaRespected', 'LostOutcomeReal'],
-            ['SizeAfterMaintain']),
+            ['SizeAfterMaintain', 'CleanExitsFree', 'NoForkOnRaise']),
     'C10': (['SemBounded', 'SlotsConserved', 'InFlightBound'], []),
     'C11': (['RestartBudget'], ['CleanExitsFree', 'NoForkOnRaise', 'AckResetsBudget']),
 }
@@ -177,8 +177,8 @@ SCEN = {
         quick=dict(
             wide=cfg(NJobs=2, Procs=2, MaxPid=4, MaxTime=1, Quota=1, Statuses=[-9], Results=['ok']),
             small=[cfg(NJobs=2, Procs=1, MaxPid=3, MaxTime=1, Quota=1, Statuses=[-9],
-                       Results=['ok'])],
-            walks=cfg(NJobs=4, Procs=2, MaxPid=6, MaxTime=3, Quota=2, Statuses=[-9, 1])),
+                       Results=['ok'], MaxR=1, MaxT=2)],
+            walks=cfg(NJobs=4, Procs=2, MaxPid=6, MaxTime=3, Quota=2, Statuses=[-9, 1], MaxR=2, MaxT=3)),
         thorough=dict(
             wide=cfg(NJobs=3, Procs=2, MaxPid=4, MaxTime=2, Quota=1, Statuses=[-9], Results=['ok']),
             small=[cfg(NJobs=2, Procs=1, MaxPid=3, MaxTime=2, Quota=1, Statuses=[-9],
